@@ -203,6 +203,18 @@ theorem invA_step {cd : Codec β} {fix : Bool} {s s' : Sys β} {st : Step} (h : 
     · simp at hs; subst hs
       constructor <;> simp [h.datEq, h.sub]
     · simp at hs
+  | exitBegin =>
+    simp only [step] at hs
+    split at hs; · simp at hs
+    rename_i hal
+    simp at hs; subst hs
+    exact ⟨h.datEq, h.sub, h.subMid, h.last, h.tmpFull, h.renLast, fun hd => by simp at hd; simp [hd] at hal⟩
+  | exitEnd =>
+    simp only [step] at hs
+    split at hs
+    · simp at hs; subst hs
+      constructor <;> simp [h.datEq, h.sub]
+    · simp at hs
   | mem ms =>
     simp only [step] at hs
     split at hs; · simp at hs
